@@ -62,6 +62,10 @@ def extract(tree, module, f, bind=None):
                 if c.get("e") == "call" and c["f"].get("e") == "path" and len(c["args"]) == 1:
                     lvl.left = resolve(c["f"]["p"].rsplit("::", 1)[-1])
                     break
+                if c.get("e") == "call" and c["f"].get("e") == "path" and len(c["args"]) == 2 and A.strip(c["args"][0]).get("e") == "path":
+                    # generic level instantiated in place: `any_product(single_value, input)?`
+                    lvl.left = generic_name(c)
+                    break
     # operators: value(Operator::X, ..), inlining helper parsers that return PResult<Operator>
     def ops_in(node, depth=0):
         out = []
@@ -76,6 +80,15 @@ def extract(tree, module, f, bind=None):
                     out.extend(ops_in(g["body"], depth + 1))
         return out
     lvl.ops = ops_in(body)
+    hard = []
+    for n in A.walk(body):
+        if n.get("e") == "call" and n["f"].get("e") == "path" and n["f"]["p"].endswith("BinOp::new"):
+            for a in n["args"]:
+                a = A.strip(a)
+                if a.get("e") == "path" and a["p"].startswith("Operator::"):
+                    hard.append(a["p"].split("::")[1])
+    lvl.hard_ops = hard
+    lvl.ops = lvl.ops + [o for o in hard if o not in lvl.ops]
     # right operand: parser paths (returning PResult<Value>) inside tuples that also contain the operator alt
     for n in A.walk(body):
         if n.get("e") == "tuple":
@@ -96,6 +109,32 @@ def extract(tree, module, f, bind=None):
                     if (g is not None and ret_ty(g) == "PResult<Value>") or xs["p"] in bind:
                         if nm not in lvl.right:
                             lvl.right.append(nm)
+    if hard:
+        for n in A.walk(body):
+            if n.get("e") == "call" and n["f"].get("e") == "path" and n["f"]["p"].rsplit("::", 1)[-1] in ("fold_many0", "fold_many1", "many0") and n["args"]:
+                tup = A.strip(n["args"][0])
+                seen_tag = False
+                for x in (tup["xs"] if tup.get("e") == "tuple" else []):
+                    xs = A.strip(x)
+                    if xs.get("e") == "call" and xs["f"].get("e") == "path" and xs["f"]["p"].rsplit("::", 1)[-1] in ("tag", "char", "terminated", "tag_no_case"):
+                        seen_tag = True
+                        continue
+                    if not seen_tag:
+                        continue
+                    nm = None
+                    if xs.get("e") == "path":
+                        nm = resolve(xs["p"])
+                        g = fn_by_name(tree, module, nm)
+                        if not ((g is not None and ret_ty(g) == "PResult<Value>") or xs["p"] in bind):
+                            nm = None
+                    elif xs.get("e") == "closure":
+                        cb = A.strip(xs["body"])
+                        if cb.get("e") == "call" and cb["f"].get("e") == "path" and len(cb["args"]) == 2 and A.strip(cb["args"][0]).get("e") == "path":
+                            nm = generic_name(cb)
+                        elif cb.get("e") == "call" and cb["f"].get("e") == "path" and len(cb["args"]) == 1:
+                            nm = resolve(cb["f"]["p"].rsplit("::", 1)[-1])
+                    if nm and nm not in lvl.right:
+                        lvl.right.append(nm)
     # construction
     for n in A.walk(body):
         if n.get("e") == "call" and n["f"].get("e") == "path" and n["f"]["p"].endswith("BinOp::new"):
@@ -103,6 +142,26 @@ def extract(tree, module, f, bind=None):
     # fold shape: closure |acc, (..)| { [let pos = ..;] BinOp::new(acc, .., op, .., rhs, ..).into() }  or the while-let form
     lvl.fold_ok = fold_shape(body)
     return lvl
+
+
+def generic_name(call):
+    return call["f"]["p"].rsplit("::", 1)[-1] + "(" + A.strip(call["args"][0])["p"] + ")"
+
+
+def level_by_name(tree, module, name):
+    """Level of a parser named either `f` or `g(P)` (generic level function g instantiated with P)."""
+    if name is None:
+        return None
+    if "(" in name:
+        g, p = name[:-1].split("(", 1)
+        gf = fn_by_name(tree, module, g)
+        if gf is None or not gf["sig"]["params"] or not gf["sig"]["params"][0].get("pat", {}).get("n"):
+            return None
+        sub = extract(tree, module, gf, {gf["sig"]["params"][0]["pat"]["n"]: p})
+        sub.fn = name
+        return sub
+    f = fn_by_name(tree, module, name)
+    return extract(tree, module, f) if f is not None else None
 
 
 def fold_shape(body):
@@ -177,6 +236,8 @@ def check_node(x, acc, bound):
     if args[0] != acc:
         return [f"left operand of the built node is `{args[0]}`, not the accumulator `{acc}`"]
     rest = [a for a in args[1:] if a in bound]
+    if any(a.startswith("Operator::") for a in args[1:]):
+        rest = ["<constant operator>"] + rest
     # among the bound names passed on, one is the operator and a later one the right operand
     if len(rest) < 2:
         return [f"the built node does not take operator and right operand from the parsed pair (args {args})"]
@@ -198,13 +259,13 @@ def run(ctx, F):
         chain = []
         seen = set()
         cur = f
-        while cur is not None and cur["path"] not in seen and len(chain) < 8:
-            seen.add(cur["path"])
-            lvl = extract(tree, module, cur)
+        lvl = extract(tree, module, f)
+        while lvl is not None and lvl.fn not in seen and len(chain) < 9:
+            seen.add(lvl.fn)
             if not lvl.ops:
                 break
             chain.append(lvl)
-            cur = fn_by_name(tree, module, lvl.left) if lvl.left else None
+            lvl = level_by_name(tree, module, lvl.left)
         placed = {}
         for i, lvl in enumerate(chain):
             for op in sorted(set(lvl.ops)):
@@ -237,7 +298,7 @@ def run(ctx, F):
             names = " ".join(SYMBOL.get(o, o) for o in lvl.ops)
             key = f"{key_prefix}|level {lvl.fn.split('=')[0]} {{{names}}}"
             nxt = lvl.left
-            if lvl.right == [nxt] and nxt != lvl.fn.split("=")[0]:
+            if lvl.right == [nxt] and nxt != lvl.fn.split("=")[0] and nxt != lvl.fn.split("=")[-1]:
                 ctx.ok("F7-left-assoc", key, {"left": nxt, "right": lvl.right})
             else:
                 ctx.fail("F7-left-assoc", key, f"{what}: at level {{{names}}} the right operand is parsed by {lvl.right} while the left operand is {nxt}: " + ("the level recurses on its right operand (right-associative)" if lvl.fn.split("=")[0] in lvl.right else "operands are not both the next tighter level"))
